@@ -204,6 +204,12 @@ impl CorpusIndex {
 
     /// (whole font bytes, mutated table payload)
     pub fn materialize(&self, case: &MutCase) -> Option<(Vec<u8>, Vec<u8>)> {
+        // inline bytes (fuzzer-found inputs): font = "hex:<bytes>", whole-file only
+        if let Some(h) = case.font.strip_prefix("hex:") {
+            let mut d: Vec<u8> = (0..h.len() / 2).filter_map(|i| u8::from_str_radix(h.get(2 * i..2 * i + 2)?, 16).ok()).collect();
+            self.apply_edits(&mut d, &case.edits);
+            return Some((d.clone(), d));
+        }
         let f = self.font(&case.font)?;
         if case.table == "FILE" || f.tables.is_empty() {
             let mut d = f.data.clone();
@@ -342,4 +348,13 @@ fn bias_to_head(e: Edit) -> Edit {
         Edit::Add16 { pos, delta } => Edit::Add16 { pos: sq(pos), delta },
         e => e,
     }
+}
+
+pub fn hex_font(bytes: &[u8]) -> String {
+    let mut s = String::with_capacity(4 + bytes.len() * 2);
+    s.push_str("hex:");
+    for b in bytes {
+        s.push_str(&format!("{b:02x}"));
+    }
+    s
 }
